@@ -135,6 +135,45 @@ func runC08(c *Ctx) {
 				return true
 			})
 			c.verdict(len(bad) == 0 && len(okRets) >= 2, construct, c.P.Pos(fn.Pos()), "every successful return of a non-empty open is preceded by chainTip()", "successful return at "+join(bad)+" reachable on a non-empty open without reading the index tip", c.ats(okRets)...)
+			// the record the tip is compared with is the LAST one of the file:
+			// read at a height computed from the file's size, not at the
+			// index tip's height (that record matches whenever the file is
+			// merely ahead, and the surplus records would be kept)
+			isSize := func(x ssa.Value) bool {
+				call, ok := x.(*ssa.Call)
+				return ok && call.Call.IsInvoke() && call.Call.Method.Name() == "Size"
+			}
+			var reads []ssa.Instruction
+			okLast := true
+			for _, in := range find(fn, func(in ssa.Instruction) bool {
+				cc := ir.CallOf(in)
+				if cc == nil || cc.StaticCallee() == nil {
+					return false
+				}
+				return c.on(cc.StaticCallee().Object()) == "readHeader"
+			}) {
+				v, isV := in.(ssa.Value)
+				if !isV {
+					continue
+				}
+				feeds := false
+				for _, e := range find(fn, callTo(isEq)) {
+					for _, a := range ir.CallOf(e).Args {
+						if ir.InfluencedBy(a, func(x ssa.Value) bool { return x == v }) {
+							feeds = true
+						}
+					}
+				}
+				if !feeds {
+					continue
+				}
+				reads = append(reads, in)
+				_, a := recvAndArgs(in)
+				if len(a) != 1 || !ir.InfluencedBy(a[0], isSize) || ir.InfluencedBy(a[0], valIsCallTo(tip)) {
+					okLast = false
+				}
+			}
+			c.verdict(okLast && len(reads) >= 1, c.nm(fn)+" | the index tip is compared with the file's last record", c.P.Pos(fn.Pos()), "readHeader(height computed from the file size) feeds the comparison", "the record compared with the index tip is not read at the height computed from the file's size: when the file is ahead of the index the surplus records are not noticed", c.ats(reads)...)
 			geq := boolIs("tipHash.IsEqual(latest file record)", find(fn, callTo(isEq)), 0, true)
 			c.mustFollow(fn, "index tip != last file record", c.failEdges(geq), callTo(trunc), "truncateHeaders(fileHeight-tipHeight)", nil, 1)
 			c.guarded(fn, errNil("truncateHeaders", find(fn, callTo(trunc)), 0), 1, "return store after reconciliation", nil, 0, gDominate)
